@@ -1053,7 +1053,7 @@ def run(ctx):
         for fname, blob in corpus_specs():
             spec = blob["spec"]
             run_api(ctx, ctx.rng("corpus", fname), spec, workdir, ctx.n(6, 12), "corpus:" + fname)
-        napis = ctx.n(8, 72)
+        napis = ctx.n(8, 180)
         nseeds = ctx.n(5, 13)
         chunk = ctx.n(4, 6)
         items = []
@@ -1061,6 +1061,9 @@ def run(ctx):
             rr = ctx.rng("api", a)
             # every third API is `rich`: >= 3 scopes, >= 3 sub-packages, mixins, extra enums, multi-field signatures, …
             spec = gen_spec(rr, a, clean=(a % 4 != 3), rich=(a % 3 == 1), extop=((a % 6 == 1) if a % 3 == 1 else None))
+            if a % 9 == 5:                         # the alternative template tree, with the extras it supports
+                spec["opts"].update(ads=True, transport="grpc")
+                spec["extras"].update(subpkgs=[], mixins=[], extop=False)
             items.append((rr, spec, f"api{a}", a % ctx.n(4, 3) == 1))
         for k in range(0, len(items), chunk):
             run_apis(ctx, items[k:k + chunk], workdir, nseeds)
